@@ -420,7 +420,7 @@ pub const ATOMS: &[&str] = &[
     "\u{a0}", "\u{2028}", "\u{2029}", "\u{3000}", "\u{85}", "\x0b", "\x0c", "e\u{301}",
     "\u{1F468}\u{200D}\u{1F469}\u{200D}\u{1F467}", "\u{1F1E6}\u{1F1F9}", "\u{2744}\u{FE0F}", "\0", "\x01", ".", ",",
     "-y", "+z", " x", "@@ -1 +1 @@", "\\ No newline at end of file", "\u{f6}", "\u{65e5}\u{672c}", "1", "22",
-    "--- a", "+++ b", "\\",
+    "--- a", "+++ b", "\\", "\u{feff}", "\u{fffd}", "\u{1F600}", "\u{10348}",
 ];
 
 pub const BAD: &[&[u8]] = &[
@@ -517,7 +517,7 @@ pub const TERMS: &[&str] = &["\n", "\n", "\n", "\r\n", "\r"];
 pub const LINE_ATOMS: &[&str] = &[
     "a", "b", "c", "", "foo", "bar", " ", "x y", "foo bar", "foo baz", "-y", "+z", " x", "@@ -1 +1 @@",
     "\\ No newline at end of file", "\u{f6}", "e\u{301}", "\u{2028}", "\t", "--- a", "+++ b", "\u{1F1E6}\u{1F1F9}",
-    "foo bar baz", "foo qux baz", "\0",
+    "foo bar baz", "foo qux baz", "\0", "\u{feff}", "\u{feff}a", "\u{fffd}", "\u{1F600} b",
 ];
 
 #[derive(Clone, Debug, PartialEq, Eq, Hash)]
